@@ -573,7 +573,7 @@ impl<const V: usize> Exec<V> {
         }
     }
 
-    fn after_possible_gc(&mut self) {
+    pub fn after_possible_gc(&mut self) {
         self.check_events();
         if let Some(d) = g().worker_ident_violation.lock().unwrap().take() {
             self.violate("C16", "worker-respawned-with-different-identity", d);
@@ -2571,7 +2571,13 @@ impl<const V: usize> Exec<V> {
         // Over-committed memory is never given back while reachable, and the virtual extent reserved for a
         // space is only 2 x heap: bound the over-committed volume (DESIGN.md: C10 domain), counting the rest.
         let mut overcommit = overcommit;
-        if overcommit && self.overcommitted_bytes + size.min(heap_bytes) > heap_bytes / 4 {
+        // With the pseudo option `__overcommit_unbounded`, requests that may not wait for a GC
+        // (`at_safepoint: false`) are exempt: when the space's address range runs out they must simply fail.
+        let unbounded = !at_safepoint && size <= heap_bytes && self.case.opts.iter().any(|(k, _)| k == "__overcommit_unbounded");
+        if unbounded && overcommit {
+            cnt!(self, "overcommit_unbounded_attempt");
+        }
+        if overcommit && !unbounded && self.overcommitted_bytes + size.min(heap_bytes) > heap_bytes / 4 {
             overcommit = false;
             cnt!(self, "steered_overcommit_volume");
         }
